@@ -46,6 +46,22 @@ def _job(job, emit):
                         pass
         except Exception:
             pass
+    # call_eqv to every equivalent variant the corpus offers, then parallelize the loops of the result
+    eqv = getattr(mod, "EQV_PROCS", {})
+    if eqv:
+        for s, d_, path in walk_stmts(p.body()):
+            if isinstance(s, C.CallCursor):
+                for nm2, e2 in eqv.items():
+                    try:
+                        q = S.call_eqv(p, s, e2)
+                    except Exception:
+                        continue
+                    for s2, d2, path2 in walk_stmts(q.body()):
+                        if isinstance(s2, C.ForCursor):
+                            try:
+                                targets.append((f"call_eqv{path},{nm2}+parallelize_loop{path2}", S.parallelize_loop(q, s2)))
+                            except Exception:
+                                pass
     if job.get("max_targets") and len(targets) > job["max_targets"]:
         head = targets[:1]
         rest = targets[1:]
